@@ -166,7 +166,7 @@ func TestDecodeHandBuilt(t *testing.T) {
 func TestDecodeFarHandBuilt(t *testing.T) {
 	seg0 := words(
 		// root: far pointer, single pad, pad at word 1 of segment 1
-		uint64(ptrFar)|1<<3|1<<32,
+		uint64(ptrFar) | 1<<3 | 1<<32,
 	)
 	seg1 := words(
 		// 0: struct body: one pointer (the struct is placed before its pad)
@@ -201,8 +201,8 @@ func TestDecodeFarHandBuilt(t *testing.T) {
 
 	// Double-far to a composite list: the inner far pointer addresses the tag
 	// word; the pad's tag word carries the word count.
-	a := words(uint64(ptrFar) | 1<<2 | 1<<3 | 0<<32, // root: double far, pad at seg 0 word 1
-		uint64(ptrFar)|0<<3|1<<32,      // pad 0: far to seg 1 word 0
+	a := words(uint64(ptrFar)|1<<2|1<<3|0<<32, // root: double far, pad at seg 0 word 1
+		uint64(ptrFar)|0<<3|1<<32,   // pad 0: far to seg 1 word 0
 		mkListPtr(0, EComposite, 2), // pad 1: tag, composite, 2 words
 	)
 	b := words(mkStructPtr(2, 1, 0), 7, 9)
@@ -405,19 +405,15 @@ func TestLimits(t *testing.T) {
 	// the same 16-entry pointer list, etc.  MaxWords / MaxNodes stop it.
 	var ws []uint64
 	const levels, fan = 8, 16
-	for l := 0; l < levels; l++ {
-		base := len(ws)
-		if l == 0 {
-			ws = append(ws, mkListPtr(0, EPtr, fan))
-			continue
-		}
+	ws = append(ws, mkListPtr(0, EPtr, fan)) // root -> level 1
+	for l := 1; l < levels; l++ {
 		for i := 0; i < fan; i++ {
-			// every entry points at the next level's list
+			// Entry i of this level sits fan-i words before the next level's
+			// list, which all entries share.
 			ws = append(ws, mkListPtr(fan-1-i, EPtr, fan))
 		}
-		_ = base
 	}
-	ws = append(ws, make([]uint64, fan)...)
+	ws = append(ws, make([]uint64, fan)...) // last level: all null
 	if _, err := Decode([][]byte{words(ws...)}, Limits{MaxDepth: 100}); !errors.Is(err, ErrLimit) {
 		t.Errorf("aliasing amplification: %v", err)
 	}
@@ -973,9 +969,7 @@ func TestCanonicalVectors(t *testing.T) {
 	if _, err := Canonical(&Value{Kind: KStruct, Data: make([]byte, 3)}); !errors.Is(err, ErrBadValue) {
 		t.Errorf("malformed: %v", err)
 	}
-	// A capability that would be truncated away is still an error?  No: a
-	// capability is non-null, so it is never truncated; but one hidden behind
-	// nothing else is still reached.
+	// A capability is non-null, so it is never truncated away.
 	if _, err := Canonical(&Value{Kind: KStruct, Ptrs: []*Value{NullValue(), {Kind: KCap}}}); !errors.Is(err, ErrCanonCap) {
 		t.Errorf("trailing cap: %v", err)
 	}
@@ -1339,4 +1333,61 @@ func TestFramedMessage(t *testing.T) {
 			t.Fatal("mismatch")
 		}
 	}
+}
+
+// ---------------------------------------------------------------------------
+// Value.Check
+// ---------------------------------------------------------------------------
+
+func TestCheckRejectsMalformed(t *testing.T) {
+	null := NullValue()
+	st := &Value{Kind: KStruct, Data: make([]byte, 8), Ptrs: []*Value{null}}
+	bad := []*Value{
+		nil,
+		{Kind: 9},
+		{Kind: KStruct, Data: make([]byte, 5)},
+		{Kind: KStruct, Data: make([]byte, 8*(maxSectionWords+1))},
+		{Kind: KStruct, Ptrs: make([]*Value, 1)}, // nil entry
+		{Kind: KList, Elem: 8},
+		{Kind: KList, Elem: -1},
+		{Kind: KList, Elem: EByte, Count: -1},
+		{Kind: KList, Elem: EByte, Count: 3, Bytes: make([]byte, 8)}, // padded storage
+		{Kind: KList, Elem: EBit, Count: 9, Bytes: make([]byte, 1)},
+		{Kind: KList, Elem: EVoid, Count: 2, Bytes: make([]byte, 1)},
+		{Kind: KList, Elem: EVoid, Count: maxListCount + 1},
+		{Kind: KList, Elem: EByte, Count: 0, Items: []*Value{null}},
+		{Kind: KList, Elem: EPtr, Count: 2, Items: []*Value{null}},
+		{Kind: KList, Elem: EPtr, Count: 1, Items: []*Value{nil}},
+		{Kind: KList, Elem: EComposite, Count: 1, CompData: 1, CompPtrs: 1, Items: []*Value{null}},
+		{Kind: KList, Elem: EComposite, Count: 1, CompData: 2, CompPtrs: 1, Items: []*Value{st}},
+		{Kind: KList, Elem: EComposite, Count: 1, CompData: 1, CompPtrs: 0, Items: []*Value{st}},
+		{Kind: KList, Elem: EComposite, Count: 2, CompData: 1, CompPtrs: 1, Items: []*Value{st}},
+		{Kind: KList, Elem: EComposite, Count: 0, CompData: maxSectionWords + 1},
+		{Kind: KStruct, Ptrs: []*Value{{Kind: KList, Elem: EByte, Count: 1}}}, // nested
+	}
+	for i, v := range bad {
+		if err := v.Check(); !errors.Is(err, ErrBadValue) {
+			t.Errorf("case %d (%v): Check = %v", i, v, err)
+		}
+	}
+	good := []*Value{
+		null, st, {Kind: KCap}, {Kind: KStruct},
+		{Kind: KList, Elem: EVoid, Count: maxListCount},
+		{Kind: KList, Elem: EBit, Count: 9, Bytes: make([]byte, 2)},
+		{Kind: KList, Elem: EComposite, Count: 1, CompData: 1, CompPtrs: 1, Items: []*Value{st}},
+	}
+	for i, v := range good {
+		if err := v.Check(); err != nil {
+			t.Errorf("good case %d: %v", i, err)
+		}
+	}
+	// Encode panics on malformed input instead of emitting garbage.
+	func() {
+		defer func() {
+			if recover() == nil {
+				t.Error("Encode accepted a malformed value")
+			}
+		}()
+		Encode(bad[2], EncOpts{})
+	}()
 }
